@@ -169,6 +169,8 @@ def install_ipaddress(it):
             if fn is _ip.ip_address and not a and not k:
                 if isinstance(u, SymIP):
                     return u
+                if type(u).__name__ == "IPText":
+                    return u.ip
                 if isinstance(u, SInt):
                     return ip_address_of_int(it_, u)
             if isinstance(u, SymIP):
